@@ -219,7 +219,7 @@ type node struct {
 type ctxKey struct {
 	val     int8
 	first   int8
-	offered uint8
+	offered uint16
 	ok      bool
 	maj     int8
 	claims  uint8
@@ -255,7 +255,7 @@ type expansion struct {
 type search struct {
 	j       *job
 	nodes   []node
-	visited map[vkey][]uint32
+	visited map[vkey][]uint64
 	seenCtx map[ctxKey]bool
 	viols   []rawViol
 	// statistics
@@ -364,7 +364,7 @@ func (s *search) cryptoMask(nd *node) uint8 {
 	}
 	var m uint8
 	for v := 0; v < s.j.n; v++ {
-		c := ctxKey{int8(v), nd.or.first[v], uint8(nd.or.offered >> uint(nBlk*v) & 0x1f), nd.ob.ok, nd.ob.maj, nd.claims}
+		c := ctxKey{int8(v), nd.or.first[v], uint16(nd.or.offered >> uint(nBlk*v) & (1<<nBlk - 1)), nd.ob.ok, nd.ob.maj, nd.claims}
 		if !s.seenCtx[c] {
 			s.seenCtx[c] = true
 			m |= 1 << uint(v)
@@ -375,7 +375,7 @@ func (s *search) cryptoMask(nd *node) uint8 {
 
 // covered reports whether an explored state with the same (implKey, first) has offered ⊆ off.
 // Called concurrently with other readers only.
-func (s *search) covered(k vkey, off uint32) bool {
+func (s *search) covered(k vkey, off uint64) bool {
 	for _, o := range s.visited[k] {
 		if o&off == o {
 			return true
@@ -384,7 +384,7 @@ func (s *search) covered(k vkey, off uint32) bool {
 	return false
 }
 
-func (s *search) exact(k vkey, off uint32) bool {
+func (s *search) exact(k vkey, off uint64) bool {
 	for _, o := range s.visited[k] {
 		if o == off {
 			return true
@@ -410,7 +410,7 @@ func (s *search) validateClone(idx int32, t *token, key implKey, ob obs) {
 const batchSize = 2048
 
 func (j *job) explore(maxStates int64) *search {
-	s := &search{j: j, visited: map[vkey][]uint32{}, seenCtx: map[ctxKey]bool{}}
+	s := &search{j: j, visited: map[vkey][]uint64{}, seenCtx: map[ctxKey]bool{}}
 	vs0 := j.newVoteSet()
 	ob0, p := observe(vs0)
 	if p != "" {
@@ -420,7 +420,7 @@ func (j *job) explore(maxStates int64) *search {
 	root := node{vs: vs0, key: j.keyOf(vs0), or: newOracle(), ob: ob0, parent: -1, tok: -1}
 	root.crypto = s.cryptoMask(&root)
 	s.nodes = append(s.nodes, root)
-	s.visited[vkey{root.key, root.or.first}] = []uint32{0}
+	s.visited[vkey{root.key, root.or.first}] = []uint64{0}
 	s.states = 1
 	s.complete = true
 	if fs := j.judge(ob0, nil, false, nil, false, ob0, root.or); len(fs) > 0 {
